@@ -499,10 +499,12 @@ PROPS["C05"] = {
             {"run": "^TestDoerner$", "checks": 1200, "shards": 4},
             {"run": "^TestCMP$", "checks": 60, "shards": 12, "timeout": 2400},
             {"run": "^TestSweepAbort$", "shards": 16, "timeout": 2400},
+            {"run": "^TestSweepPrefix$", "shards": 4, "timeout": 2400},
         ],
         "thorough": [
             {"fuzz": "FuzzAccept", "fuzztime": "240s", "workers": 8, "timeout": 800},
             {"run": "^TestSweep$", "shards": 16, "timeout": 9000},
+            {"run": "^TestSweepPrefix$", "shards": 4, "timeout": 9000},
             {"run": "^TestCheap$", "checks": 200000, "shards": 6},
             {"run": "^TestDoerner$", "checks": 40000, "shards": 4},
             {"run": "^TestCMP$", "checks": 2400, "shards": 16, "timeout": 9000},
